@@ -473,7 +473,7 @@ func checkC12(c *Ctx) {
 	}
 
 	// ---- C12.6 first match
-	r.Rule("C12.6", "weighted override-subnet loops stop at the first matching cumulative weight", 2)
+	r.Rule("C12.6", "weighted override-subnet loops stop at the first matching cumulative weight and use a draw independent of the percentage gate", 4)
 	if f := c.fn("C12.6", rp, "RegProcessor", "processBdReq"); f != nil {
 		n := 0
 		for _, b := range f.Blocks {
@@ -515,6 +515,48 @@ func checkC12(c *Ctx) {
 			}
 			which := cnd[i+3:]
 			which = which[:strings.Index(which, "[")]
+			// C12.6b: the draw compared with the cumulative weights is a random value independent of the
+			// draw that gates the override percentage (a shared draw is confined to [0, prcnt) inside the
+			// override branch, so subnets above that cut are never chosen).
+			if bo, ok := iff.Cond.(*ssa.BinOp); ok {
+				draw := bo.X
+				if !strings.Contains(pathOf(bo.Y), "CumulativeWeights[") {
+					draw = bo.Y
+				}
+				drawSrc := randomSources(draw)
+				gateSrc := map[ssa.Value]bool{}
+				for _, b2 := range f.Blocks {
+					if len(b2.Instrs) == 0 {
+						continue
+					}
+					if if2, ok := b2.Instrs[len(b2.Instrs)-1].(*ssa.If); ok {
+						if c2, _ := normCond(if2.Cond); strings.Contains(c2, "RegsToOverride") {
+							if bo2, ok := if2.Cond.(*ssa.BinOp); ok {
+								for k := range randomSources(bo2.X) {
+									gateSrc[k] = true
+								}
+								for k := range randomSources(bo2.Y) {
+									gateSrc[k] = true
+								}
+							}
+						}
+					}
+				}
+				shared := false
+				for k := range drawSrc {
+					if gateSrc[k] {
+						shared = true
+					}
+				}
+				if len(drawSrc) == 0 {
+					r.Bad("C12.6", "processBdReq: the value compared with "+which+" is not a random draw", iff.Cond.Pos(), fnName(f), "the weighted choice compares "+firstN(pathOf(draw), 80)+", which does not come from a random source: the same subnet is always chosen")
+				} else if shared {
+					r.Bad("C12.6", "processBdReq: the draw for "+which+" is the draw that gates the override percentage", iff.Cond.Pos(), fnName(f),
+						"inside the override branch the gating draw is already known to be below the configured percentage, so reusing it for the weighted choice confines it to the low cumulative weights: subnets whose interval starts above that cut are never used")
+				} else {
+					r.OK("C12.6", "processBdReq: the draw for "+which+" is independent of the percentage gate", iff.Cond.Pos(), fmt.Sprintf("%d random source(s), none shared with the gate", len(drawSrc)))
+				}
+			}
 			if header == nil {
 				r.Unk("C12.6", "processBdReq: loop over "+which, iff.Pos(), fnName(f), "could not locate the loop header of the weighted choice")
 				continue
@@ -588,4 +630,33 @@ func checkC12(c *Ctx) {
 				"a phantom that lies in an excluded subnet can still be replaced by an override address")
 		}
 	}
+}
+
+// randomSources returns the call instructions to random generators that v data-depends on.
+func randomSources(v ssa.Value) map[ssa.Value]bool {
+	out := map[ssa.Value]bool{}
+	seen := map[ssa.Value]bool{}
+	var walk func(x ssa.Value, d int)
+	walk = func(x ssa.Value, d int) {
+		if x == nil || d > 40 || seen[x] {
+			return
+		}
+		seen[x] = true
+		if call, ok := x.(*ssa.Call); ok {
+			n := calleeName(&call.Call)
+			if strings.HasPrefix(n, "math/rand.") || strings.HasPrefix(n, "(*math/rand.Rand)") || strings.HasPrefix(n, "crypto/rand.") || strings.HasSuffix(n, ".randomInt") {
+				out[x] = true
+				return
+			}
+		}
+		if in, ok := x.(ssa.Instruction); ok {
+			for _, op := range in.Operands(nil) {
+				if *op != nil {
+					walk(*op, d+1)
+				}
+			}
+		}
+	}
+	walk(v, 0)
+	return out
 }
